@@ -506,7 +506,7 @@ func MergeLists(opts []SegSpec, k int, yield func(idx int64, segs []SegSpec) boo
 
 // ---- STORED-S / DV-S ----
 
-const NStoredCfg = 8
+const NStoredCfg = 10
 
 func storedDoc(cfg int, i int) Doc {
 	big := make([]byte, 300)
@@ -532,11 +532,19 @@ func storedDoc(cfg int, i int) Doc {
 		return Doc{Field{N: "z", St: true, Val: []byte{0, 0xff, 0}}}
 	case 7: // no fields at all
 		return Doc{}
+	case 8: // a 300-byte value followed by values of other fields: in-record offsets and lengths need multi-byte varints
+		return Doc{idf, stored(fld("a", TermKind("x", KF1, "")), string(big)), stored(fld("c"), "after-the-big-one"), stored(fld("z"), string(big[:200]))}
+	case 9: // many stored fields, some repeated
+		d := Doc{idf}
+		for k := 0; k < 20; k++ {
+			d = append(d, stored(fld(fmt.Sprintf("s%02d", k%17)), fmt.Sprintf("value-%d-of-doc-%d", k, i)))
+		}
+		return d
 	}
 	panic("stored cfg")
 }
 
-// StoredS enumerates STORED-S: 0..maxDocs docs x 8 stored configurations.
+// StoredS enumerates STORED-S: 0..maxDocs docs x 10 stored configurations.
 func StoredS(maxDocs int, yield func(idx int64, batch []Doc, cfgs []int) bool) {
 	var idx int64
 	for n := 0; n <= maxDocs; n++ {
